@@ -6,4 +6,3 @@ CONSTANTS
   NDictSample = 2000
   Chunk = 0
   NChunks = 1
-INVARIANTS LogOfTerm NoDup LeftToRight FirstFirst BodyLast StrictTotal LazyLaws Emit
